@@ -29,7 +29,7 @@ def _build_shell_command(
         for key, value in environment.items():
             subshell_parts.append(f"export {key}={shlex.quote(value)}")
     subshell_parts.append(" ".join(command))
-    cmd = f"sh -c {shlex.quote(' && '.join(subshell_parts))} 2>&1"
+    cmd = f"sh -c {shlex.quote(' && '.join(subshell_parts))} < /dev/null 2>&1"
     if logger.isEnabledFor(logging.DEBUG):
         logger.debug(
             f"EXECUTING command {cmd} on {shell_class} "
